@@ -13,7 +13,10 @@ RULE = ("random context-free grammars restricted to useful symbols (the library'
         "the tree checker and compared with the reference LL(1) parse), NotParsableException otherwise. Non-trivial: "
         ">=2 productions, one with a body of length >=2.")
 LEVEL = "proof"
-THEOREMS = ["Pfl.LL1Lib.firstSet_isSome",
+THEOREMS = ["Pfl.LL1Lib.parse_isSome",
+            "Pfl.LL1Lib.parse_total",
+            "Pfl.LL1Lib.steps_double",
+            "Pfl.LL1Lib.firstSet_isSome",
             "Pfl.LL1Lib.followSet_isSome",
             "Pfl.LL1Lib.isLLOne_isSome",
             "Pfl.LL1Lib.firstSet_linear_bound_false",
